@@ -64,6 +64,16 @@ func vhDefNullableStar() Rules {
 	return Rules{"Root": {{"X", `(a?)*b`, nil}, {"Y", `(?:a*)+c`, nil}, {"Z", `(a|)+d`, nil}, {"A", `a`, nil}}}
 }
 
+// a state reached through two includes: its rules appear twice in Root
+func vhDefIncludeDiamond() Rules {
+	return Rules{
+		"Root":   {Include("S"), Include("N"), {"Other", `o`, nil}},
+		"S":      {{"Str", `s`, nil}, Include("Common")},
+		"N":      {{"Num", `n`, nil}, Include("Common"), {"Str", `s`, nil}},
+		"Common": {{"Ws", ` `, nil}, {"Id", `i`, Push("N")}},
+	}
+}
+
 func vhDefString() Rules { // README-style interpolated string
 	return Rules{
 		"Root":   {{"String", `"`, Push("String")}, {"Ident", `[a-z]+`, nil}},
